@@ -121,6 +121,9 @@ def make_history(rng):
                         ops.append(("L", objtree.join(own[:rng.randint(0, len(own) - 1)])))
                     ops.append(("C", objtree.join(own)))
                 continue
+            if rng.random() < 0.04:
+                ops.append(("X", objtree.join(t)))        # the same call under every failing allocation of its dispatch
+                continue
             ops.append(("C" if rng.random() < 0.9 else "c", objtree.join(t)))
         elif r < 0.93:
             t = _call_target(rng, pool, model)
@@ -238,6 +241,28 @@ def judge(part, ops, res):
             if (want if want is not None else -1) != got:
                 viol("user-data", "get_object_path_data(%s) gave handler %s, expected %s" % (path, got, want), i, want, got)
             part.count("data-compared")
+        elif kind == "X":
+            d = model.dispatch(path)
+            runs = o.get("runs") or []
+            part.count("oom-call-ops")
+            part.count("oom-call-runs", max(0, len(runs) - 1))
+            if not runs or not runs[0].get("sent"):
+                part.inconclusive.append("X op without a reference run")
+                return
+            ref = runs[0]
+            want = ("from", d.taker) if d.taker is not None else ("err", d.error)
+            got0 = ("from", ref.get("from")) if ref.get("type") == 2 else ("err", ref.get("err"))
+            if got0 != want and not (want[0] == "err" and got0[0] == "err"):
+                # error-name deviations are the C/c ops' business (recorded finding); here only taker vs error
+                viol("reply:oom-call-reference", "fault-free call to %s answered %s, model says %s" % (path, got0, want), i, want, ref)
+            for n, run in enumerate(runs[1:]):
+                gk = ("from", run.get("from")) if run.get("type") == 2 else ("err", run.get("err"))
+                if gk != got0:
+                    part.count("oom-call-deviations")
+                    viol("reply:changed-by-allocation-failure:%s" % ("reply-lost" if run.get("err", "").endswith("NoReply") else "other"),
+                         "call to %s: with allocation %d of its dispatch failing the caller gets %s, without fault %s"
+                         % (path, n, gk, got0), i, got0, run)
+                    break
         elif kind in "CcD":
             d = model.dispatch(path)
             if kind == "D":
@@ -380,6 +405,7 @@ def run(tier, seed, replay=None, scale=1.0):
     r.require("call-error:below-fallback", 200 if full else 1)
     r.require("call-error:unknown-object", 200 if full else 1)
     r.require("self-unregistrations-from-a-handler", 100 if full else 1)
+    r.require("oom-call-runs", 500 if full else 1)
     r.require("register-occupied", 200 if full else 1)
     r.require("unregister", 1000 if full else 1)
     r.require("list-compared", 500 if full else 1)
